@@ -49,11 +49,6 @@ open Env
 
 def notWritable : WOut N := { res := .error .notWritable }
 
-/-- `WriteValOutput::combine` and `Default`: always "value not writable"; the `back` slot is
-    state of the closure, so the latest successful pop wins. -/
-def WOut.combine (a b : WOut N) : WOut N :=
-  { res := .error .notWritable, back := b.back <|> a.back }
-
 /-! ### binary operators (`binary_operator_fold`) -/
 
 def ordIs (r : Option Ordering) (p : Ordering → Bool) : Bool :=
@@ -242,37 +237,26 @@ def writeSubscript (rec : Rec N) (w : Writer N) : Primary N → List (Val N) →
     | .ok k => writeSubscript rec w arr (k :: keys)
   | _, _ => pure notWritable
 
-def writeArgs (rec : Rec N) (w : Writer N) : List (Expr N) → WOut N → M N (WOut N)
-  | [], acc => pure acc
-  | e :: es, acc => do
-    let o ← rec.writeExpr w e
-    writeArgs rec w es (WOut.combine acc o)
-
+/-- `WriteVal::visit_primary_expression`: only identifiers, pronouns and subscripts (and what a
+    `roll` pops from) denote places. Literals are leaves (⇒ `Default` = not writable); calls
+    are not writable and (repaired code) their operands are not visited. -/
 def writePrimary (rec : Rec N) (w : Writer N) : Primary N → M N (WOut N)
-  | .lit _ _ => pure notWritable                              -- leaf ⇒ Default
+  | .lit _ _ => pure notWritable
   | .ident (.var name) _ => writeCell w (.var name) []
   | .ident .pronoun _ => writeCell w .pronoun []
   | .sub arr idx => do
     match ← subscriptVal rec idx with
     | .error e => pure { res := .error e }
     | .ok k => writeSubscript rec w arr [k]
-  | .call name _ args => do
-    -- default `visit_function_call`: the *name* is visited as a variable, then every argument
-    let o ← writeCell w (.var name) []
-    writeArgs rec w args (WOut.combine notWritable o)
+  | .call _ _ _ => pure notWritable
   | .pop arr => rec.writePrimary w arr                        -- default `visit_array_pop_expr`
 
+/-- `WriteVal::visit_expression`: binary and unary expressions are not writable and (repaired
+    code) their operands are neither evaluated nor written through. -/
 def writeExpr (rec : Rec N) (w : Writer N) : Expr N → M N (WOut N)
   | .prim p => rec.writePrimary w p
-  | .bin _ lhs first rest => do
-    let o1 ← rec.writeExpr w lhs
-    -- operator leaf ⇒ Default; then the expression list
-    let o2 := WOut.combine o1 notWritable
-    let o3 ← writeArgs rec w (first :: rest) notWritable
-    pure (WOut.combine o2 o3)
-  | .un _ e => do
-    let o ← rec.writeExpr w e
-    pure (WOut.combine notWritable o)
+  | .bin _ _ _ _ => pure notWritable
+  | .un _ _ => pure notWritable
 
 def writeIdent (w : Writer N) (i : Ident) : M N (WOut N) :=
   match i with
